@@ -99,7 +99,7 @@ def key_of(label, e, idx):
     return "trace:%s:%s" % (entry, e.get("e", "?") if e.get("e") != "Chunk" else "Chunk-" + str(e.get("kind")))
 
 def run(ctx):
-    plans = gen_plans(ctx, [0] if ctx.quick else [0] + [ctx.seed * 100 + k for k in range(1, 9)])
+    plans = gen_plans(ctx, [0] if ctx.quick else [0] + [ctx.seed * 100 + k for k in range(1, 12)])
     ctx.log("plans from TLC: %d" % len(plans))
     build.lib("asan"); build.lib("plain")
     jobs = build_jobs(ctx, plans, {"lz", "bias"}, first_full=None if ctx.quick else 260)
